@@ -44,7 +44,14 @@ def make_lens(ctx, kinds, obj='inf', tilt_at=None, stops=None, mats=None):
         spec['t'].append(t)
         kw['thickness'] = t
         m = (mats or {}).get(i, 'ideal')
-        if m == 'ideal':
+        if m == 'shared':
+            # one user-supplied material instance used behind several surfaces
+            if 'shared_mat' not in spec:
+                spec['shared_n'] = ctx.real('nshared', lo=1.0, hi=4.0)
+                spec['shared_mat'] = ideal(spec['shared_n'])
+            n = spec['shared_n']
+            kw['material'] = spec['shared_mat']
+        elif m == 'ideal':
             n = ctx.real(f'n{i}', lo=1.0, hi=4.0)
             kw['material'] = ideal(n)
         elif m == 'mirror':
@@ -260,6 +267,11 @@ def cases_edit(tier):
         for ax in ('x', 'y'):
             out.append(dict(op='var_tilt', at=s, axis=ax, scaled=True))
             out.append(dict(op='var_decenter', at=s, axis=ax, scaled=False))
+    for s in (1, 2, 3):
+        out.append(dict(op='set_index', at=s, variant='shared'))
+        out.append(dict(op='set_index', at=s, variant='mirror'))
+    out.append(dict(op='var_index', at=1, scaled=True, variant='mirror'))
+    out.append(dict(op='set_thickness', at=2, variant='mirror'))
     out.append(dict(op='add_wavelength', at=0))
     out.append(dict(op='image_solve', at=4))
     out.append(dict(op='update_noop', at=0))
@@ -275,9 +287,14 @@ def _edit_lens(ctx, obj='finite', tilt_at=3, kinds=EDIT_KINDS, mats=None):
                 'one edit operation with a symbolic argument at an enumerated surface (inductive step: any history length)',
          doc='an edit changes exactly the addressed quantity, reads back the value set (getter and Variable.value), keeps '
              'surface 1 at z=0, moves later vertices rigidly for thickness edits and keeps media chained')
-def h2_edit(ctx, op, at, scaled=None, j=None, axis=None):
+def h2_edit(ctx, op, at, scaled=None, j=None, axis=None, variant=None):
     from optiland.optimization.variable import Variable
-    o, sp = _edit_lens(ctx)
+    if variant == 'shared':
+        o, sp = _edit_lens(ctx, kinds=('standard', 'standard', 'standard'), mats={1: 'shared', 2: 'air', 3: 'shared'})
+    elif variant == 'mirror':
+        o, sp = _edit_lens(ctx, kinds=('standard', 'standard', 'standard'), mats={2: 'mirror'})
+    else:
+        o, sp = _edit_lens(ctx)
     K = sp['K']
     v = ctx.real('v', ne=0) if 'radius' in op else (ctx.real('v', lo=1.0, hi=4.0) if 'index' in op else ctx.real('v'))
     before = snapshot(ctx, o)
@@ -581,6 +598,45 @@ def marginal_oracle_general(ctx, o, sp, K):
         us.append(u)
         n_prev = n_new
     return ys, us
+
+
+@harness('C01', 'H4_pickup_and_solve', funcs=FUNCS,
+         cases=lambda tier: [dict(attr='radius'), dict(attr='thickness')],
+         bounds='K=3 spherical lens carrying one pickup (symbolic scale/offset) and one image-surface marginal-ray-height solve; '
+                'the pickup source is edited, then update() is called once',
+         doc='after a single update() both hold: target = scale*source + offset AND the marginal ray is at the requested height')
+def h4_pickup_and_solve(ctx, attr):
+    o, sp = make_lens(ctx, ('standard', 'standard', 'standard'), 'inf', None, stops=1)
+    K = sp['K']
+    sc, off, h = ctx.real('scale', ne=0), ctx.real('offset'), ctx.real('h')
+    sg = o.surface_group
+    if attr == 'radius':
+        o.pickups.add(1, 'radius', 2, scale=sc, offset=off)
+    else:
+        o.pickups.add(1, 'thickness', 2, scale=sc, offset=off)
+    o.solves.add('marginal_ray_height', K + 1, height=h)
+    o.update()
+    newv = ctx.real('newsrc', ne=0)
+    if attr == 'radius':
+        o.set_radius(newv, 1)
+        sp2 = dict(sp, R=[newv, sc * newv + off, sp['R'][2]])
+    else:
+        o.set_thickness(newv, 1)
+        sp2 = dict(sp, t=[newv, sc * newv + off, sp['t'][2]])
+    if attr == 'radius':
+        ctx.assume(ctx.Not(sc * newv + off == 0))
+    ys, us = marginal_oracle(ctx, sp2, K)
+    ctx.assume(ctx.Not(us[K] == 0))
+    o.update()
+    if attr == 'radius':
+        ctx.oblige('pickup_holds', ctx.eq(sg.radii[2], sc * ctx.val(sg.radii[1]) + off))
+    else:
+        ctx.oblige('pickup_holds', ctx.eq(sg.get_thickness(2), sc * ctx.val(sg.get_thickness(1)) + off))
+    ya, ua = o.paraxial.marginal_ray()
+    got = ctx.val(ya[K + 1])
+    ctx.observe('ya_img', got)
+    if ctx.finite(got):
+        ctx.oblige('solve_holds', ctx.eq(got, h))
 
 
 def cases_solves(tier):
